@@ -315,6 +315,9 @@ def gen_trace(seed: int, tier: str) -> dict:
     if deck != "default" and rs.random() < 0.5:
         # the deck's media parts as another producer numbers them (holes below the maximum, number 1 free, sparse)
         start.setdefault("xform", []).append({"kind": "renumber", "family": "media", "mode": rs.choice(["odd", "shift", "sparse", "reverse"]), "seed": rs.randint(0, 99)})
+    if rs.random() < 0.2:
+        # the deck as a producer writes it that declares its JPEG parts "image/jpg"
+        start.setdefault("xform", []).append({"kind": "alias_types", "seed": rs.randint(0, 9)})
     return {"property": ID, "seed": seed, "tier": tier, "config": {"arm": arm, "max_slides": 6},
             "start": [start], "events": pre + events}
 
@@ -373,6 +376,16 @@ def pinned_traces(tier):
         evs += [dict(base, op="c15.add", img=A, existing=k_, src={"via": "stream", "pos": 0}) for k_ in range(3)]
         evs += [{"op": "checkpoint", "sink": "seekable"}, {"op": "restart"}]
         out.append({"property": ID, "seed": "image-held-by-a-layout-%s" % dk, "tier": "pinned", "config": {"pinned": True}, "start": [{"deck": dk}], "events": evs})
+    # JPEG parts declared "image/jpg" by the producer of the deck: a new JPEG, the deck's own images again, re-opened, again
+    for dk in ("default", "f-shp-picture.pptx", "t-test.pptx", "f-test-image-jpg-mime.pptx"):
+        evs = [{"op": "add_slide", "layout": 6},
+               dict(base, op="c15.add", img={"fmt": "JPEG", "w": 4, "h": 4, "seed": 97, "mode": "RGB", "dpi": None}, src={"via": "stream", "pos": 0})]
+        evs += [dict(base, op="c15.add", img=A, existing=k_, src={"via": "stream", "pos": 0}) for k_ in range(3)]
+        evs += [{"op": "checkpoint", "sink": "seekable"}, {"op": "restart"}]
+        evs += [dict(base, op="c15.add", img=A, existing=k_, src={"via": "stream", "pos": 0}) for k_ in range(3)]
+        evs += [{"op": "checkpoint", "sink": "seekable"}, {"op": "restart"}]
+        out.append({"property": ID, "seed": "jpeg-declared-image-jpg-%s" % dk, "tier": "pinned", "config": {"pinned": True},
+                    "start": [{"deck": dk, "xform": ([] if dk.startswith("f-test-image") else [{"kind": "alias_types", "seed": 1}])}], "events": evs})
     # one buffer object refilled and passed again and again
     evs = [{"op": "add_slide", "layout": 6}]
     for k in range(6):
